@@ -42,6 +42,9 @@ def stages(tier, rng, only=None):
                                                                    rng),
                                                         cfgs, SCHEMES + ac.grid_sample(rng, 6), flags=(0, 1),
                                                         namings=["ints", "ints", "letters", "big"]), _nt))
+    out.append(ac.stage("many_rankings", PID, lambda: ac.cases(
+        [ac.random_dataset(rng, 4, 30, nmin=2) for _ in range(n_rand // 2)], cfgs, FAM, flags=(0,),
+        namings=["ints", "letters"]), _nt))
     if tier == "thorough":
         out.append(ac.stage("grid3x3", PID, lambda: ac.cases(grids.datasets(3, 3), cfgs, SCHEMES, flags=(0,)), _nt))
         out.append(ac.stage("grid4x2", PID, lambda: ac.cases(grids.datasets(4, 2), cfgs, SCHEMES, flags=(0,)), _nt))
